@@ -355,6 +355,30 @@ mod verif_c01 {
         assert!(MadeHand::from(h.cards).power_index() == MadeHand::from(g.cards).power_index());
     }
 
+    /// quick-tier slice of c11_suit_perm: ranks confined to a seed-chosen window of four adjacent ranks, any order
+    #[kani::proof]
+    #[kani::unwind(15)]
+    fn c11_suit_perm_slice() {
+        let h = any_distinct();
+        let w: u8 = /*@SLICE_RANK@*/0;
+        let mut i = 0;
+        while i < 7 {
+            kani::assume(h.r[i] >= w && h.r[i] < w + 4);
+            i += 1;
+        }
+        let p: [u8; 4] = kani::any();
+        kani::assume(p[0] < 4 && p[1] < 4 && p[2] < 4 && p[3] < 4);
+        kani::assume(p[0] != p[1] && p[0] != p[2] && p[0] != p[3] && p[1] != p[2] && p[1] != p[3] && p[2] != p[3]);
+        let mut s2 = [0u8; 7];
+        i = 0;
+        while i < 7 {
+            s2[i] = p[h.s[i] as usize];
+            i += 1;
+        }
+        let g = mk(h.r, s2);
+        assert!(MadeHand::from(h.cards).power_index() == MadeHand::from(g.cards).power_index());
+    }
+
     /// cheap form: the flush decision and mask are equivariant under a suit permutation
     #[kani::proof]
     #[kani::unwind(9)]
